@@ -10,6 +10,7 @@ use qrlew::{
     relation::{field::Constraint, schema::Schema, Relation},
     synthetic_data::SyntheticData,
 };
+use crate::query::QuerySpec;
 use serde::{Deserialize, Serialize};
 use std::sync::Arc;
 
@@ -185,6 +186,10 @@ pub struct Scenario {
     pub pu: PuSpec,
     pub params: Params,
     pub sql: String,
+    /// Structured form of `sql` when the generator produced it (hand-written replays: None).
+    pub query: Option<QuerySpec>,
+    /// (alias, table) of the first protected table in FROM: base of the holders side query.
+    pub base: Option<(String, String)>,
     pub compile: CompileState,
     /// Seed of the engine's PRNG for `Seeded` draw roles.
     pub engine_seed: u64,
@@ -276,6 +281,12 @@ impl Scenario {
             for t in &self.synthetic {
                 let orig = t.name.trim_start_matches("syn_").to_string();
                 h = h.with(vec![(vec![orig], Identifier::from(t.name.as_str()))]);
+            }
+            // public tables stand for themselves (the compiler asks for a twin of every table)
+            for t in &self.tables {
+                if !self.is_protected(&t.name) {
+                    h = h.with(vec![(vec![t.name.clone()], Identifier::from(t.name.as_str()))]);
+                }
             }
             Some(SyntheticData::new(h))
         }
